@@ -110,7 +110,7 @@ pub fn checks(tier: Tier) -> Vec<Check> {
     vec![Check {
         name: "C15.totality".into(),
         strategy: strategy(release),
-        cases: tier.scale(100_000, 15),
+        cases: tier.scale(300_000, 8),
         exec: Box::new(crate::ops::exec),
         oracle: Box::new(oracle),
         classify: Box::new(classify),
